@@ -1,7 +1,7 @@
 (* executable entry point of the RSync model: trees as integer lists *)
 From Coq Require Import ZArith List Bool Arith.
 Import ListNotations.
-Require Import EV.model.RSync.
+Require Import EV.model.RSync EV.model.RSyncProto.
 Open Scope Z_scope.
 
 Fixpoint take {A} (n : nat) (l : list A) : option (list A * list A) :=
@@ -64,8 +64,11 @@ Definition run_rsync (inp : list Z) : list Z :=
               let tgt := if has =? 0 then Some None else match parse_node (length r2) r2 with Some (t, _) => Some (Some t) | None => None end in
               match tgt with
               | Some tg =>
-                  let '(res, trs) := sync cf (fun c => c) (negb (del =? 0)) cwd [] src tg in
-                  enc_node res ++ [Z.of_nat (length trs)] ++ flat_map enc_names trs
+                  (* the message-level exchange (proved equal to RSync.sync for well-formed sources: exchange_is_sync) *)
+                  match exchange cf (fun c => c) (negb (del =? 0)) cwd src tg with
+                  | Some (res, trs) => enc_node res ++ [Z.of_nat (length trs)] ++ flat_map enc_names trs
+                  | None => [-995]
+                  end
               | None => [-997]
               end
           | _ => [-998]
